@@ -299,7 +299,7 @@ def run(ctx):
     TableSrc = type('TableSrc', (SrcBase, etl.Table), {})
     ctx.rule = ('every streaming operator of a %d-entry catalog (basics, conversions, selects, headers, fills, maps, regex, unpacks, '
                 'melt/flatten, hash joins and hash set operations on their streamed side, row accessors, progress/clock/cache/wrap, '
-                'tee* writers) and random compositions of 2-5 of them, over counting sources (regular and ragged) of 100 and 10000 rows '
+                'tee* writers) and random compositions of 2-5 of them, over counting sources (regular and ragged) of 1000 and 10000 rows '
                 'sharing their prefix: construction pulls no data row (and no header except for the operators documented to consult it); '
                 'for k = 0..8 data rows requested through islice / head / look / lookstr / see / repr, outputs and pull counts are equal for '
                 'both lengths, the pull count is minimal up to the operator\'s lookahead constant C (the same pipeline on the source cut '
@@ -330,7 +330,7 @@ def run(ctx):
     ctx.prove(['PetlProofs.Props.C02'], REQUIRED)
     rng = ctx.rng
     ops = catalog(etl)
-    N1, N2 = 100, 10000
+    N1, N2 = 1000, 10000
     ks = list(range(0, 9))
     hows = ['islice', 'head', 'look', 'lookstr', 'see', 'repr', 'islice-twice']
 
@@ -367,8 +367,8 @@ def run(ctx):
             return
         if p1 != p2:
             ctx.spec_fail('%s|%s|pulls-depend-on-length' % (name, how),
-                          '%s via %s: %d rows pulled from the 100-row source, %d from the 10000-row source for k=%d' % (name, how, p1, p2, k),
-                          dict(case, pulls_100=p1, pulls_10000=p2))
+                          '%s via %s: %d rows pulled from the 1000-row source, %d from the 10000-row source for k=%d' % (name, how, p1, p2, k),
+                          dict(case, pulls_1000=p1, pulls_10000=p2))
             return
         if out1 != out2:
             ctx.spec_fail('%s|%s|output-depends-on-length' % (name, how), '%s via %s: first %d rows differ between source lengths' % (name, how, k),
@@ -415,7 +415,7 @@ def run(ctx):
                'convert-where', 'convert-passrow', 'convert-failonerror-none', 'convertall', 'convertnumbers', 'replace', 'replaceall', 'update',
                'format', 'formatall', 'interpolate', 'interpolateall', 'rename', 'rename-dict', 'setheader', 'extendheader', 'pushheader',
                'prefixheader', 'suffixheader', 'sortheader', 'filldown', 'filldown-c', 'fillright', 'fillleft', 'sub', 'capture', 'split',
-               'splitdown', 'unpack', 'unpackdict', 'unpackdict-sampled', 'fieldmap', 'rowmap', 'rowmapmany', 'melt', 'hashleftjoin', 'hashlookupjoin', 'data',
+               'splitdown', 'unpack', 'unpackdict', 'unpackdict-sampled', 'flatten-unflatten', 'fieldmap', 'rowmap', 'rowmapmany', 'melt', 'hashleftjoin', 'hashlookupjoin', 'data',
                'values', 'records', 'dicts', 'namedtuples', 'progress', 'clock', 'cache', 'wrap', 'teecsv', 'teetsv', 'teepickle', 'teetext',
                'teehtml'}
     seeds = [rng.randrange(1000) for _ in range(4 if ctx.thorough() else 1)]
@@ -474,6 +474,37 @@ def run(ctx):
                        'addcolumn-lazy': (k, k), 'addcolumn-view': (k, k)}[name]
                 if a2 > lim[0] or b2 > lim[1]:
                     ctx.spec_fail('%s|more-than-needed' % name, '%s: pulled (%d,%d) rows for k=%d, allowed %r' % (name, a2, b2, k, lim), case)
+
+    # asking a binary view for its header only (what fieldnames(), the *all functions, natural joins and record* set
+    # operations do while a pipeline is being put together) reads no data row; the hash joins that build their lookup
+    # before anything else may read their build side
+    BUILD_SIDE_OK = {'hashjoin': (False, True), 'hashleftjoin': (False, True), 'hashrightjoin': (True, False), 'hashlookupjoin': (False, True)}
+    for name in ('join', 'leftjoin', 'rightjoin', 'outerjoin', 'antijoin', 'lookupjoin', 'hashjoin', 'hashleftjoin', 'hashrightjoin',
+                 'hashantijoin', 'hashlookupjoin', 'complement', 'intersection', 'hashcomplement', 'hashintersection', 'cat', 'stack',
+                 'annex', 'mergesort', 'crossjoin'):
+        fn = getattr(etl, name)
+        for consult in ('header', 'fieldnames', 'convertall', 'natural-join'):
+            a, b = TableSrc(N1, 1), TableSrc(N1, 2)
+            try:
+                v = fn(a, b, key='a') if name.endswith('join') and name != 'crossjoin' or name == 'mergesort' else fn(a, b)
+                if consult == 'header':
+                    etl.header(v)
+                elif consult == 'fieldnames':
+                    etl.fieldnames(v)
+                elif consult == 'convertall':
+                    etl.convertall(v, str)
+                else:
+                    etl.join(v, [['zz'], [1]])        # no common field: only the headers are compared
+                err = None
+            except Exception as e:   # noqa
+                err = type(e).__name__
+            ok_a, ok_b = BUILD_SIDE_OK.get(name, (False, False))
+            ctx.case((name, 'header-only', consult))
+            ctx.count('kind:header-only-request')
+            if err is None and ((a.pulls and not ok_a) or (b.pulls and not ok_b)):
+                ctx.spec_fail('%s|header-request-reads-rows' % name,
+                              '%s: %s on the view pulled (%d, %d) data rows from its inputs' % (name, consult, a.pulls, b.pulls),
+                              {'pipeline': name, 'consult': consult, 'pulls': (a.pulls, b.pulls)})
 
     # extractors: bytes read for k rows do not depend on the file length
     def files(n):
